@@ -93,6 +93,14 @@ func RunThreads() {
 	}
 }
 
+// ThreadID identifies the running harness thread (0: not inside RunThreads).
+func ThreadID() int {
+	if curThr == nil {
+		return 0
+	}
+	return curThr.id
+}
+
 // Yield is a scheduling point. Outside RunThreads it does nothing.
 func Yield() {
 	if curThr == nil {
